@@ -453,6 +453,18 @@ class DataFrame:
         f = self.copy()
         for c in f._cols: f._c[c] = [core.sym_not(v) for v in f._c[c]]
         return f
+    def sum(self, axis = 0, min_count = 0, **kw):
+        """row sums (axis = 1), NaN cells skipped; fewer than min_count valid cells -> NaN; +inf + -inf -> NaN as in IEEE"""
+        if kw or axis != 1: raise Unsupported('minipd: DataFrame.sum options')
+        from vf.symx import ops as X
+        out = []
+        for i in range(len(self)):
+            tot = 0.0; cnt = 0
+            for c in self._cols:
+                v = self._c[c][i]; n = _isnan(v)
+                tot = tot + X.If(n, 0.0, v); cnt = cnt + X.If(n, 0, 1)
+            out.append(X.If(cnt < min_count, float('nan'), tot) if min_count else tot)
+        return Series(out, Index(self._i._l, self._i.name))
     def dropna(self, how = 'any', **kw):
         if kw or how not in ('any', 'all'): raise Unsupported('minipd: dropna options')
         keep = []
